@@ -1239,13 +1239,25 @@ def gen_history_op(rng, n, m, F, G, offset):
     cur_n, cur_F = n, F
     other = rng.random() < 0.4
     user_edit = rng.random() < 0.15
-    choices = ["center", "center", "center_mass", "join", "join", "superpose", "superpose", "slice", "xyz_assign"] + ([] if other else ["atom_slice"])
+    choices = ["center", "center", "center_mass", "join", "join", "superpose", "superpose", "slice", "xyz_assign", "edit_recenter", "edit_recenter"] + ([] if other else ["atom_slice"])
     for _ in range(rng.randint(1, 4)):
         k = rng.choice(choices)
         if k == "center":
             steps.append(["center"])
         elif k == "center_mass":
             steps.append(["center_mass"])
+        elif k == "edit_recenter":
+            # centre (cache filled) -> coordinates changed behind the setter -> centre again: the second call must really
+            # centre and refresh the cache
+            if not steps or steps[-1][0] != "center":
+                steps.append(["center"])
+            if rng.random() < 0.6 or cur_F < 2:
+                steps.append(["inplace_partial", rng.randint(1, max(1, cur_n - 1)), [round(rng.uniform(-1, 1), 3) for _ in range(3)]])
+            else:
+                a_ = rng.randrange(cur_F - 1)
+                steps.append(["view_superpose", a_, rng.randint(a_ + 1, cur_F), rng.randrange(G)] if cur_n == m else
+                             ["inplace_partial", rng.randint(1, max(1, cur_n - 1)), [round(rng.uniform(-1, 1), 3) for _ in range(3)]])
+            steps.append(["center"])
         elif k == "join":
             # usually on a centred trajectory with a centred second piece (all traces present), with and without a
             # repeated boundary frame, with and without discarding it
@@ -1372,6 +1384,10 @@ def build_cases(ctx):
             ops.append({"op": "rmsd", "frame": 0, "parallel": False, "ref_atom_indices": perm, "atom_indices": None})
             ops.append({"op": "superpose", "frame": 0, "parallel": True, "ref_atom_indices": perm, "atom_indices": None})
         add(gen, ops=ops)
+    # fixed probes: repeated centring with coordinates written behind the setter in between
+    gen = {"kind": "random", "n": 8, "m": 8, "F": 4, "G": 2, "scale": 1.0, "offset": 3.0}
+    add(gen, ops=[{"op": "history", "steps": [["center"], ed, ["center"]], "parallel": par, "ref": "self", "frame": 2}
+                  for ed in (["inplace_partial", 3, [0.4, -0.3, 0.2]], ["view_superpose", 1, 3, 0]) for par in (True, False)])
     # the rmsf-with-atom-indices path
     for _ in range(4 if quick else 30):
         n = rng.randint(6, 30)
@@ -1680,8 +1696,22 @@ def check_cases(ctx, cases, arrays, out, errors):
 def check_history(ctx, rec, op, gen, pre, out, key, bucket, track, excl):
     nopre, xyz, rxyz, flags = out[key + "_nopre"], out[key + "_xyz"], out[key + "_rxyz"], out[key + "_flags"]
     fr = int(flags[2]) if len(flags) > 2 else op["frame"]
-    edited = any(st[0] == "inplace_shift" for st in op["steps"] + op.get("ref_steps", []))
+    def edit_left_uncentred(steps):
+        last_edit = max([i for i, st in enumerate(steps) if st[0] in ("inplace_shift", "inplace_partial", "view_superpose")] or [-1])
+        return last_edit >= 0 and not any(st[0] == "center" for st in steps[last_edit + 1:])
+    edited = edit_left_uncentred(op["steps"]) or edit_left_uncentred(op.get("ref_steps", []))
     kinds = "+".join(st[0] for st in op["steps"])
+    # every center_coordinates() call must leave the centroid of every frame at the origin and the cache filled
+    cen = out.get(key + "_cen")
+    if cen is not None:
+        for after, before, has in cen:
+            ctx.count({"gen": gen, "op": op, "centre_call": True}, nontrivial=True, bucket="history/center_coordinates-call")
+            if after > 64 * EPS * (before + 1e-3) or not has:
+                ctx.fail("Trajectory.center_coordinates() leaves a frame off the origin or without cached traces", rec,
+                         observed={"largest_centroid_component_after": float(after), "largest_coordinate_before": float(before),
+                                   "traces_present": bool(has), "history": kinds},
+                         expected={"centroid": 0.0, "tol": 64 * EPS * (before + 1e-3)}, tags={"kind": "center_not_centred", "gen": gen["kind"]})
+                return
     for f in range(xyz.shape[0]):
         a, b = xyz[f], rxyz[fr]
         msd, R, ca, cb = kabsch(a, b)
